@@ -592,6 +592,11 @@ func runC20(c *run.Ctx, s *kit.Summary) {
 		registerScenario(r, s, rst, i)
 	}
 	rst.Diff(c.Driver, s)
+	hst := &kit.Stream{Name: "c20.handler"}
+	for i := 0; i < c.N(15, 300); i++ {
+		handlerScenario(r, s, hst, i)
+	}
+	hst.Diff(c.Driver, s)
 	wst := &kit.Stream{Name: "c20.wide_series"}
 	wideDone(wst)
 	wst.Diff(c.Driver, s)
